@@ -38,7 +38,7 @@ CHECKS['C03'] = dict(
          'has priority p, at any depth, whatever priority tags are written below; the loader model is tied to the real loader on priority-tagged documents). '
          'THE WHOLE MERGE AS A REFINEMENT (Spec/UpdateP.upd_p: two mappings merge key by key and the result carries the higher priority; otherwise the older value survives iff its priority is '
          'strictly higher): C03_priorities_refine - for any number of mapping documents whose scalars and enclosing mappings carry arbitrary !force/!weak/!metadata{{priority}} tags '
-         '(no !del/!notnew marks; !new, !unsafe, user metadata free; LISTS are values taken as a whole - inside a list no node has a priority tag of its own, so the list carries one priority, its own tag or an enclosing one - under the side condition hcompat that a mapping never meets a list at the same path, which is decidable, vacuous without lists (C03_no_lists_no_side_condition) and checked by the correspondence), Builder.flatten succeeds and builds exactly the left fold of upd_p over the documents\' priority images (values AND priorities of all nodes; '
+         '(no !del/!notnew marks; !new, !unsafe, user metadata free; LISTS are values taken as a whole - inside a list no node has a priority tag of its own, so the list carries one priority, its own tag or an enclosing one - under the side condition hcompat that a mapping never meets a list at the same path, which is decidable, vacuous without lists (C03_no_lists_no_side_condition), implied by the document-by-document reading "no document has a list where an earlier one has a mapping, or the other way round" (C03_side_condition_document_by_document) and checked by the correspondence), Builder.flatten succeeds and builds exactly the left fold of upd_p over the documents\' priority images (values AND priorities of all nodes; '
          'induction on the fuel, loop lemma loop_dict_z, invariants OldZ/NewZ); C03_every_leaf_path_latest_of_highest - at every path whose spine is mappings in every document, the merged '
          'value is that of the latest document among those of highest priority there (pre <= W > post), nothing if nobody writes it; C03_update_is_pointwise; C03_prediction_sound / '
          'C03_document_prediction_sound, C03_evaluated_config (down to the config a user gets: merge, placeholder check, deep copy, evaluation yield exactly the values of the fold) (the class is decidable; the correspondence runs the sound checker on the trees the real loader built and on the documents as written and compares the '
